@@ -180,12 +180,20 @@ func (f flowDef) YAML() string {
 	if len(f.Headers) > 0 {
 		b.WriteString("  headers:\n")
 		for _, h := range f.Headers {
+			if h[1] == "*" {
+				fmt.Fprintf(&b, "    - key: %q\n", h[0])
+				continue
+			}
 			fmt.Fprintf(&b, "    - key: %q\n      value: %q\n", h[0], h[1])
 		}
 	}
 	if len(f.Query) > 0 {
 		b.WriteString("  query_params:\n")
 		for _, h := range f.Query {
+			if h[1] == "*" {
+				fmt.Fprintf(&b, "    - key: %q\n", h[0])
+				continue
+			}
 			fmt.Fprintf(&b, "    - key: %q\n      value: %q\n", h[0], h[1])
 		}
 	}
